@@ -140,8 +140,14 @@ namespace occa {
   }
 
   bool modeKernel_t::isNoop() const {
-    return (
-      outerDims.isZero() || innerDims.isZero()
-    );
+    // A loop range that is empty at run time gives a zero or negative iteration
+    // count, which arrives here as a zero or sign-wrapped unsigned dimension
+    const dim *runDims[2] = {&outerDims, &innerDims};
+    for (const dim *d : runDims) {
+      if (((dim_t) d->x <= 0) || ((dim_t) d->y <= 0) || ((dim_t) d->z <= 0)) {
+        return true;
+      }
+    }
+    return false;
   }
 }
